@@ -906,7 +906,20 @@ _dispatch_timer_unote_resume(dispatch_timer_source_refs_t dt)
 	uint32_t tidx = _dispatch_timer_unote_idx(dt);
 	dispatch_timer_heap_t dth = _dispatch_timer_unote_heap(dt);
 
-	if (unlikely(was_armed && (!will_arm || dt->du_ident != tidx))) {
+	if (unlikely(was_armed && will_arm && dt->du_ident != tidx)) {
+		// The timer moves to the heap of another clock. It must not look
+		// disarmed in between: _dispatch_source_invoke2() unregisters a
+		// cancelled timer that is not armed from its target queue, without
+		// coming back to the manager, and would race with the re-arming below.
+		_dispatch_timer_heap_remove(&dth[dt->du_ident], dt);
+		_dispatch_timers_heap_dirty(dth, dt->du_ident);
+		dt->du_ident = tidx;
+		_dispatch_timer_heap_insert(&dth[tidx], dt);
+		_dispatch_timers_heap_dirty(dth, tidx);
+		_dispatch_timer_du_debug("moved", dt);
+		return;
+	}
+	if (unlikely(was_armed && !will_arm)) {
 		_dispatch_timer_unote_disarm(dt, dth);
 		if (!will_arm) {
 			// The source may have been resumed since it was found suspended
